@@ -6,7 +6,7 @@ WRAP = ['pthread_cond_wait', 'pthread_cond_signal']
 
 RULE = ('histories over one file-backed store in a private directory: set / set-multiple / remove / clear / get / '
         'save+synchronise / save interrupted after k system calls (every k from 0 to all) followed by a process '
-        'restart / save+synchronise with n spurious wake-ups of pthread_cond_wait and a slow disk / save whose writes fail with ENOSPC from the k-th on / load / restart / hand-written settings files / universe appear-rename-teardown / device '
+        'restart / bursts of 2-4 saves (one or two files) with the saver thread held inside the k-th system call of the first / save+synchronise with n spurious wake-ups of pthread_cond_wait and a slow disk / save whose writes fail with ENOSPC from the k-th on / load / restart / hand-written settings files / universe appear-rename-teardown / device '
         'register-patch-priority-unregister-shutdown; keys and values aimed at the separators (=, #, blanks, empty, '
         'prefixes of each other, bytes above 127), universe ids at 0, 2^31-1, 2^31, 2^32-1, priorities at 0, 200, '
         '201, 255; a minority of inputs outside the side conditions (untrimmed, key with =, embedded newline). '
@@ -40,7 +40,7 @@ TRUSTED = ['modelled rather than verified: Preferences.cpp MemoryPreferences::{S
            'Synchronize, CompleteSynchronization) is hand-written and is tied to the code only behaviourally (file observed at '
            'the return of the real Synchronize under injected spurious wake-ups); it is not extracted']
 
-_KEYS = ['s', 'f', 'a', 'u', 'p', 'y']
+_KEYS = ['s', 'f', 'a', 'u', 'p', 'y', 'z']
 SPEC_KEYS = set('%s%d' % (k, i) for k in _KEYS for i in range(0, 300))
 # xc / xi: system calls and images of a save with failing writes (how often libstdc++ retries is its business)
 INTERNAL_KEYS = ['xc%d' % i for i in range(300)] + ['xi%d' % i for i in range(300)]
@@ -166,6 +166,26 @@ def gen_cases(rng, tier):
         ops = fill(rng, rng.randint(1, 4), keys) + ['Y:%d' % rng.choice([0, 1, 1, 2, 3, 7])]
         ops += fill(rng, rng.randint(0, 2), keys) + [rng.choice(['Y:1', 'Y:2', 'V', 'L'])]
         yield ' '.join(ops)
+    # 3b'. bursts of 2-4 saves while the saver thread is held inside the k-th system call of the first
+    #      one (k over every call of that save: open, each write, close, rename), then Synchronize()
+    for i in range(12 * scale):
+        base = ['b%d' % j for j in range(rng.randint(0, 3))]
+        pre = ['S:%s:%s' % (hx(k), hx(rval(rng))) for k in base]
+        if base and rng.random() < 0.5:
+            pre.append('V')
+        nsaves = rng.randint(2, 4)
+        two = rng.random() < 0.35
+        k1 = rng.choice(base + ['n', 'n'])
+        entries = len(set(base + [k1]))               # entries of the store at the first save
+        for k in range(1, entries + 4):               # the script has entries + 3 calls
+            if quick and rng.random() < 0.45 and k not in (1, entries + 3):
+                continue
+            items = ['1,%s,%s' % (hx(k1), hx('v0' + rval(rng)))]
+            for j in range(1, nsaves):
+                w = '2' if two and rng.random() < 0.5 else '1'
+                key = rng.choice([k1, k1, 'n2'] + base)
+                items.append('%s,%s,%s' % (w, hx(key), hx('v%d' % j + rval(rng))))
+            yield ' '.join(pre + ['B:%d:%s' % (k, '/'.join(items)), 'L', 'G:%s' % hx(k1)])
     # 3c. a save during which the disk fills up: every write from the k-th on fails
     for i in range(80 * scale):
         keys = [rkey(rng) for _ in range(rng.randint(1, 3))]
